@@ -31,7 +31,7 @@ fn round_ratio(got: &[f64], want: &[f64], hf: &[f64]) -> f64 {
 pub fn run(ctx: &Ctx) -> (Report, Meta) {
     let k_round = 64.0;
     let meta = Meta::new(
-        "(a) low-level builders with a recording SolOut on bounded and discontinuous problems (forcing rejections) and, for Radau and BDF, stiff Van der Pol oscillators (mu 10..1000, through a relaxation jump), 6 methods, both directions, tolerances, max_step clamps: for every accepted step the interpolant handed to the callback is evaluated at both step ends and compared with the previous and the new state; steps following a rejection and BDF order changes are counted; (b) solve_ivp with dense_output: sol(t_i) vs stored samples, sol/sol_many succeed on the covered span (stored times, midpoints, boundaries +-1 ulp, span ends, random interior) and return OutOfRange clearly outside, sol_span contains x0 and the last reported time, NotEnabled when disabled, zero-length run, runs ended by terminal events and step budgets; non-trivial = run with >= 3 segments (distinct by scenario hash)",
+        "(a) low-level builders with a recording SolOut on bounded and discontinuous problems (forcing rejections) and, for Radau and BDF, stiff Van der Pol oscillators (mu 10..1000, through a relaxation jump), 6 methods, both directions, tolerances, max_step clamps: for every accepted step the interpolant handed to the callback is evaluated at both step ends and compared with the previous and the new state; steps following a rejection and BDF order changes are counted; one case in four runs with dense_output off and a callback that asks for interpolants on demand (XOut), every interpolant handed over is held to the same identities; (b) solve_ivp with dense_output: sol(t_i) vs stored samples, sol/sol_many succeed on the covered span (stored times, midpoints, boundaries +-1 ulp, span ends, random interior; sol_many with the query times as collected, increasing, decreasing and single, bitwise equal to sol) and return OutOfRange clearly outside, sol_span contains x0 and the last reported time, NotEnabled when disabled, zero-length run, runs ended by terminal events and step budgets; non-trivial = run with >= 3 segments (distinct by scenario hash)",
     )
     .assume("rounding bound for endpoint identities: 64 eps (|y| + (|h|+|t|) max(|f|, |secant slope of the step|)) componentwise (the |t||f| term is the effect of one ulp of the evaluation time) (calibrated: worst observed on the unchanged tree is recorded in worst_observed)")
     .thresholds(json!({"endpoint_rounding_factor": k_round, "clearly_outside": "1e-9*span + 1e-9"}))
@@ -78,10 +78,18 @@ pub fn run(ctx: &Ctx) -> (Report, Meta) {
         let mut probe = Probe::new(&prob, scn.x0);
         probe.user_jac = scn.user_jac;
         probe.budget = 600_000;
-        let lo = LowOpts { dense: true, max_step: scn.max_step, ..Default::default() };
+        // one case in four runs with dense_output off and asks for interpolants on demand (the callback answers XOut(xo) at
+        // some callback): whatever interpolant the solver then hands over must be as valid as with dense_output on
+        let on_demand = i % 4 == 3;
+        let lo = LowOpts { dense: !on_demand, max_step: scn.max_step, ..Default::default() };
         let mut so = RecSolOut::new(Some(&probe));
         so.thetas = vec![0.0, 1.0];
         so.keep_seg = scn.method == Method::BDF;
+        if on_demand {
+            let at = if rng.bool() { 0 } else { 1 + rng.below(6) };
+            let xo = scn.x0 + (scn.xend - scn.x0) * rng.range(0.0, 0.9);
+            so.script = vec![(at, Action::XOut(xo))];
+        }
         let out = run_low_guarded(scn.method, &probe, scn.x0, &scn.y0, scn.xend, &scn.rtol, &scn.atol, &lo, &mut so);
         rep.eval();
         let case = scn.describe(&prob);
@@ -116,8 +124,14 @@ pub fn run(ctx: &Ctx) -> (Report, Meta) {
             let cb = &so.cbs[k];
             let pv = &so.cbs[k - 1];
             if !cb.has_interp {
+                if on_demand {
+                    continue;
+                }
                 rep.violate(&format!("C06/interpolant_missing/{}/low_level", m), format!("callback {} received no interpolant although dense output is enabled", k), &case_id, case.clone());
                 break;
+            }
+            if on_demand {
+                rep.count("on_demand_interpolants_checked", 1);
             }
             let h = cb.x - cb.xold;
             let mut f_old = vec![0.0; n];
@@ -142,7 +156,7 @@ pub fn run(ctx: &Ctx) -> (Report, Meta) {
             if is_implicit(scn.method) && cb.calls_at_entry - pv.calls_at_entry > 12 {
                 rep.count("steps_after_rejection_checked", 1);
             }
-            let mut cls = "regular";
+            let mut cls = if on_demand { "on_demand" } else { "regular" };
             if scn.method == Method::BDF && !cb.cont.is_empty() {
                 let ord = cb.cont[6];
                 if let Some(po) = prev_order {
@@ -330,20 +344,36 @@ pub fn run(ctx: &Ctx) -> (Report, Meta) {
                 }
             }
         }
-        // sol_many agrees with sol
-        if let Ok(many) = sol.sol_many(&inside) {
-            for (k, &t) in inside.iter().enumerate() {
-                let single = match sol.sol(t) {
-                    Ok(v) => v,
-                    Err(_) => continue,
-                };
-                if !bits_eq(&many[k], &single) {
-                    rep.violate(&format!("C06/sol_many_differs/{}/{}", m, cls), format!("sol_many and sol differ at t = {:e}", t), &case_id, case.clone());
-                    break;
+        // sol_many agrees with sol, whatever the order of the query times (as collected, increasing, decreasing — a sweep
+        // over sorted queries must not assume the direction of integration — and a single time)
+        let mut orders: Vec<(&str, Vec<f64>)> = vec![("as_collected", inside.clone())];
+        let mut inc = inside.clone();
+        inc.sort_by(|a, b| a.partial_cmp(b).unwrap());
+        let mut dec = inc.clone();
+        dec.reverse();
+        orders.push(("increasing", inc));
+        orders.push(("decreasing", dec));
+        orders.push(("single", vec![inside[rng.below(inside.len())]]));
+        for (oname, q) in &orders {
+            rep.count("sol_many_query_orders_checked", 1);
+            if let Ok(many) = sol.sol_many(q) {
+                if many.len() != q.len() {
+                    rep.violate(&format!("C06/sol_many_differs/{}/{}", m, cls), format!("sol_many returned {} states for {} query times ({})", many.len(), q.len(), oname), &case_id, case.clone());
+                    continue;
                 }
+                for (k, &t) in q.iter().enumerate() {
+                    let single = match sol.sol(t) {
+                        Ok(v) => v,
+                        Err(_) => continue,
+                    };
+                    if !bits_eq(&many[k], &single) {
+                        rep.violate(&format!("C06/sol_many_differs/{}/{}", m, cls), format!("sol_many ({} query times) and sol differ at t = {:e}", oname, t), &case_id, case.clone());
+                        break;
+                    }
+                }
+            } else {
+                rep.violate(&format!("C06/sol_fails_inside_span/{}/{}", m, cls), format!("sol_many failed on points inside the span ({} query times)", oname), &case_id, case.clone());
             }
-        } else {
-            rep.violate(&format!("C06/sol_fails_inside_span/{}/{}", m, cls), "sol_many failed on points inside the span".into(), &case_id, case.clone());
         }
         // stored samples reproduced (terminal event point included)
         let first_step_games = scn.first_step.is_some();
